@@ -4,6 +4,7 @@ import (
 	"context"
 	"encoding/json"
 	"fmt"
+	"github.com/ogen-go/ogen/middleware"
 	"hash/fnv"
 	"io"
 	"net/http"
@@ -116,6 +117,29 @@ func (d *c19Disp) Call(iface, method string, args []any) []any {
 	return nil
 }
 
+// c19Middlewares returns n pass-through middlewares; each may yield before handing on (a middleware
+// is user code and may block), which is where a continuation shared between requests would be swapped.
+func c19Middlewares(n int, seen *atomic.Int64, delays *bool) []middleware.Middleware {
+	var ms []middleware.Middleware
+	for k := 0; k < n; k++ {
+		k := k
+		ms = append(ms, func(req middleware.Request, next middleware.Next) (middleware.Response, error) {
+			c := seen.Add(1)
+			if *delays {
+				h := ev.Mix64(uint64(c)*31 + uint64(k))
+				for i := 0; i < int(h%4); i++ {
+					runtime.Gosched()
+				}
+				if h%11 == 0 {
+					time.Sleep(time.Duration(h%200) * time.Microsecond)
+				}
+			}
+			return next(req)
+		})
+	}
+	return ms
+}
+
 type c19Call struct {
 	op string
 	in []reflect.Value // without ctx
@@ -196,9 +220,15 @@ func c19Pkg(r *ev.Run, pc *C19Pkg) error {
 	if err != nil {
 		return err
 	}
-	ts := httptest.NewServer(srv)
+	// a second server of the same handler behind a chain of pass-through middlewares (user code that may yield)
+	mwSeen := &atomic.Int64{}
+	srvMW, err := pkg.NewServer(disp, ServerConfig{Middleware: c19Middlewares(3, mwSeen, &disp.delays)})
+	if err != nil {
+		return err
+	}
+	ts := httptest.NewServer(srvMW)
 	defer ts.Close()
-	// two clients: in-process wire transport and a real loopback connection pool
+	// three clients: in-process wire transport (plain server and middleware server) and a real loopback connection pool
 	clWire, err := pkg.NewClient(disp, ClientConfig{URL: "http://verif.local", HTTP: &WireTransport{H: srv}})
 	if err != nil {
 		return err
@@ -208,7 +238,12 @@ func c19Pkg(r *ev.Run, pc *C19Pkg) error {
 	if err != nil {
 		return err
 	}
-	clients := []reflect.Value{reflect.ValueOf(clWire), reflect.ValueOf(clNet)}
+	clWireMW, err := pkg.NewClient(disp, ClientConfig{URL: "http://verif.local", HTTP: &WireTransport{H: srvMW}})
+	if err != nil {
+		return err
+	}
+	clients := []reflect.Value{reflect.ValueOf(clWire), reflect.ValueOf(clNet), reflect.ValueOf(clWireMW)}
+	transports := []string{"in-process wire", "loopback http, 3 middlewares", "in-process wire, 3 middlewares"}
 
 	// the call list: valid, invalid (hostile) and validation-failing requests over all operations
 	rng := r.Rand("c19", pc.Origin)
@@ -287,7 +322,7 @@ func c19Pkg(r *ev.Run, pc *C19Pkg) error {
 	// sanity: the two transports agree sequentially (else the comparison below would blame concurrency)
 	seqDisagree := 0
 	for i := range calls {
-		if (ref[0][i].err == "") != (ref[1][i].err == "") {
+		if (ref[0][i].err == "") != (ref[1][i].err == "") || (ref[0][i].err == "") != (ref[2][i].err == "") {
 			seqDisagree++
 		}
 	}
@@ -328,7 +363,7 @@ func c19Pkg(r *ev.Run, pc *C19Pkg) error {
 				r.Distinct(fmt.Sprintf("%s|%d|%d|%d", pc.Origin, ci, round, i))
 				a, b := ref[ci][i], got[i]
 				w := func() map[string]any {
-					return map[string]any{"origin": pc.Origin, "operation": calls[i].op, "transport": []string{"in-process wire", "loopback http"}[ci], "round": round, "sequential": map[string]any{"error": a.err, "result": Descr(a.snap)}, "concurrent": map[string]any{"error": b.err, "result": Descr(b.snap)}, "arguments": descrArgs(calls[i].in)}
+					return map[string]any{"origin": pc.Origin, "operation": calls[i].op, "transport": transports[ci], "round": round, "sequential": map[string]any{"error": a.err, "result": Descr(a.snap)}, "concurrent": map[string]any{"error": b.err, "result": Descr(b.snap)}, "arguments": descrArgs(calls[i].in)}
 				}
 				switch {
 				case strings.HasPrefix(b.err, "PANIC"):
@@ -349,6 +384,7 @@ func c19Pkg(r *ev.Run, pc *C19Pkg) error {
 		}
 	}
 	r.Count("packages", 1)
+	r.Count("middleware_invocations", int(mwSeen.Load()))
 	r.Set("max_concurrent_handler_invocations:"+pc.Origin, disp.maxIn.Load())
 	if disp.maxIn.Load() < 2 {
 		r.Inconclusive("no-concurrency-achieved", pc.Origin)
@@ -544,7 +580,12 @@ func c19KV(r *ev.Run, pc *C19Pkg) error {
 				d.resT[m.Name] = m.Type.Out(0)
 			}
 		}
-		srv, err := pkg.NewServer(d, ServerConfig{})
+		var kvCfg ServerConfig
+		if round%4 >= 2 {
+			on := true
+			kvCfg.Middleware = c19Middlewares(2, &atomic.Int64{}, &on)
+		}
+		srv, err := pkg.NewServer(d, kvCfg)
 		if err != nil {
 			return err
 		}
